@@ -107,13 +107,31 @@ type Term struct {
 	Name   string
 	P1, P2 int
 	ID     int64
+	Size   int32 // tree size (saturating); small terms are printed inline
 }
+
+const inlineLimit = 24
 
 var idCtr int64
 
 func newTerm(op Op, s Sort, args ...*Term) *Term {
-	return &Term{Op: op, Sort: s, Args: args, ID: atomic.AddInt64(&idCtr, 1)}
+	sz := int32(1)
+	for _, a := range args {
+		if a.Size > 1 {
+			sz += a.Size
+		} else {
+			sz++
+		}
+		if sz > 1<<20 {
+			sz = 1 << 20
+		}
+	}
+	return &Term{Op: op, Sort: s, Args: args, ID: atomic.AddInt64(&idCtr, 1), Size: sz}
 }
+
+// Named reports whether the term gets its own definition in the solver
+// (large terms are named and shared; small ones are printed inline).
+func (t *Term) Named() bool { return t.Op != OConst && t.Op != OVar && t.Size >= inlineLimit }
 
 func mask(w int) uint64 {
 	if w >= 64 {
@@ -713,7 +731,10 @@ func Ref(t *Term) string {
 	case OVar:
 		return t.Name
 	}
-	return fmt.Sprintf("t!%d", t.ID)
+	if t.Named() {
+		return fmt.Sprintf("t!%d", t.ID)
+	}
+	return Body(t)
 }
 
 // Body prints the one-level definition of a non-leaf term, its arguments by reference.
